@@ -104,3 +104,15 @@ CLAIMED['C25'] = dict(
          "are outside the claim.",
     technique="symbolic execution of the real Python (symbolic buffer bytes and offsets) + z3 per-path queries",
     design_ref="DESIGN.md §3 C25")
+
+CLAIMED['C13'] = dict(
+    level='other',
+    text="The real symbolic-engine memory (MemArray/MemSparse/SymbolMngr, get_state/set_state, deletion) is driven by ~4600 "
+         "(quick) / ~60000 (thorough) enumerated histories of writes (5 value kinds incl. self/other memory and slices of wider "
+         "loads), deletions and export/import, sizes 1..8 bytes, offsets around 0x10 and around the 2^32 wrap, integer and two "
+         "symbolic bases; written values and original memory are solver variables and every probed read is proved equal to "
+         "the little-endian byte-store model.",
+    note="Trusted: z3, vf/refsem.py. Offsets are enumerated (dictionary keys in the implementation); non-aliasing of different "
+         "symbolic bases is assumed as the engine documents.",
+    technique="SMT equivalence of the real engine's read results against a byte-store model over enumerated histories",
+    design_ref="DESIGN.md §3 C13", engine='refsem')
